@@ -18,6 +18,28 @@ class S(System):
         self.model.log.append((self.id, self.model.systems.timestep))
 
 
+def _make(kind, m, f, start, end):
+    """the system kinds the framework ships, each built the way its signature invites; every kind logs its runs"""
+    from ECAgent.Collectors import Collector, AgentCollector, FileCollector
+
+    def note(self):
+        self.model.log.append((self.id, self.model.systems.timestep))
+    if kind == 'system':
+        return S("s", m, frequency=f, start=start, end=end)
+    if kind == 'positional':
+        return S("s", m, 0, f, start, end)
+    if kind == 'collector':
+        return type("Cl", (Collector,), {"collect": note})("s", m, frequency=f, start=start, end=end)
+    if kind == 'collector_positional':
+        return type("Cl", (Collector,), {"collect": note})("s", m, -1, f, start, end)
+    if kind == 'agent_collector':
+        return type("AC", (AgentCollector,), {"collect": note})(m, lambda a: {}, id="s", frequency=f, start=start, end=end)
+    if kind == 'file_collector':
+        return type("FC", (FileCollector,), {"collect": note, "write_records": lambda self: None})(
+            "s", m, "unused.txt", frequency=f, start=start, end=end)
+    raise AssertionError(kind)
+
+
 def window(start: int, end: int, f: int, t0: int) -> bool:
     """
     pre: f >= 1
@@ -25,7 +47,7 @@ def window(start: int, end: int, f: int, t0: int) -> bool:
     """
     hx.begin()
     m = LogModel()
-    m.systems.add_system(S("s", m, frequency=f, start=start, end=end))
+    m.systems.add_system(_make(hx.P.get('kind', 'system'), m, f, start, end))
     m.systems.timestep = t0
     if m.timestep != t0:
         return hx.end(hx.fail("model.timestep != scheduler timestep before step"))
@@ -231,7 +253,8 @@ def spawn_inside(start: int, end: int, t0: int, when: int, n: int) -> bool:
     f, prio = hx.P['f'], hx.P['prio']
     m = LogModel()
     m.systems.timestep = t0
-    sp = Spawner("spawner", m, start=t0, end=t0 + 1000)
+    # (the spawner itself may be on a sparse schedule: due at the moment it spawns, then only every sf-th timestep)
+    sp = Spawner("spawner", m, start=t0 + when, end=t0 + 1000, frequency=hx.P.get('sf', 1))
     sp.when = t0 + when
     sp.child = S("child", m, priority=prio, frequency=f, start=start, end=end)
     m.systems.add_system(sp)
@@ -381,8 +404,11 @@ def obligations(tier):
         ms += [{"steps": 3, "f": [1, 1]}, {"steps": 3, "f": [3, 2]}, {"steps": 4, "f": [2, 3]},
                {"steps": 3, "f": [2, 1], "third": [-1, 4, 2, 1]}, {"steps": 3, "f": [4, 2], "third": [0, 0, 1, 2]}]
     return [
-        X("window", window, labels=("runs", "skips"), timeout=120, encoded=enc,
-          bounds={"start,end,frequency,timestep": "all ints, frequency >= 1"}),
+        X("window", window, parts=[{"kind": k} for k in ("system", "positional", "collector", "collector_positional",
+                                                         "agent_collector", "file_collector")],
+          labels=("runs", "skips"), timeout=120, encoded=enc + (System.__init__,),
+          bounds={"start,end,frequency,timestep": "all ints, frequency >= 1",
+                  "system kinds": "System, Collector, AgentCollector, FileCollector (window passed by keyword / positionally)"}),
         X("window_k", window_k, parts=[{"f": f} for f in range(1, F + 1)], labels=("runs", "off_phase", "outside"),
           timeout=120, group=2, encoded=enc, bounds={"frequency": "1..%d (concrete per partition)" % F, "start,end,timestep,k": "all ints"}),
         X("default_end", default_end, labels=("runs",), timeout=120, encoded=enc + (System.__init__,)),
@@ -399,7 +425,7 @@ def obligations(tier):
                   ((3, 1, False, 1), (3, 2, True, 1), (4, 1, True, 3), (4, 2, False, 2), (5, 3, True, 1), (5, 1, False, 4)))],
           labels=("runs_after_reregistration",), timeout=900, encoded=enc + (SystemManager.add_system, SystemManager.remove_system),
           bounds={"steps": "<= %d" % (4 if tier == "quick" else 5), "window, timestep": "all ints", "frequency": "concrete per partition"}),
-        X("spawn_inside", spawn_inside, parts=[{"N": N, "f": f, "prio": pr} for f, pr in ((1, 0), (2, 5), (1, -3))],
+        X("spawn_inside", spawn_inside, parts=[{"N": N, "f": f, "prio": pr} for f, pr in ((1, 0), (2, 5), (1, -3))] + [{"N": N, "f": 1, "prio": 0, "sf": 4}],
           labels=("child_runs_later",), timeout=900, encoded=enc + (SystemManager.add_system,),
           bounds={"n": "1..%d" % N, "child priority": "0, 5, -3 (spawner 0)"}),
         X("nested_models", nested_models, parts=[{"steps": 2, "f": 1}, {"steps": 3, "f": 2}], labels=("window_runs",), timeout=900,
